@@ -1,4 +1,4 @@
-CONSTANTS Variant = "std"  MaxSum = 9  MaxIns = 2  MaxPays = 4  MaxFee = 3
+CONSTANTS Variant = "std"  MaxSum = 7  MaxIns = 2  MaxPays = 4  MaxFee = 2
           ScaleKs = {12}  ScaleRs = {0}
           SrcPatterns = {"own"}  ToPatterns = {"distinct"}
           EmitScaled = TRUE
